@@ -605,7 +605,24 @@ func c05NativeDecode(n int, seed []byte) {
 		_, err := new(SM2P256Point).SetBytes(bad)
 		verifAssert(err != nil, "a coordinate of p or above is rejected")
 	}
-	// a curve point with a tiny ordinate: y0 in 1..40 with x from the cubic is not available in closed
+	// a curve point with a tiny ordinate (found by root finding on the cubic): y + p must be rejected
+	for y0 := int64(1) + int64(seed[2]%8); y0 < 40; y0++ {
+		x, ok := c05SmallYPoint(y0)
+		if !ok {
+			continue
+		}
+		enc := make([]byte, 65)
+		enc[0] = 4
+		x.FillBytes(enc[1:33])
+		big.NewInt(y0).FillBytes(enc[33:])
+		_, err := new(SM2P256Point).SetBytes(enc)
+		verifAssert(err == nil, "a curve point with a tiny ordinate decodes")
+		new(big.Int).Add(big.NewInt(y0), c05P).FillBytes(enc[33:])
+		_, err = new(SM2P256Point).SetBytes(enc)
+		verifAssert(err != nil, "y + p is rejected (uncompressed)")
+		break
+	}
+	// a curve point with a tiny abscissa: y0 in 1..40 with x from the cubic is not available in closed
 	// form; tiny abscissa instead: x0 = seed-dependent small value, y = sqrt(x0^3 - 3 x0 + b)
 	x0 := big.NewInt(int64(seed[0]) % 41)
 	rhs := new(big.Int).Exp(x0, big.NewInt(3), c05P)
@@ -661,4 +678,84 @@ func verifH_c05_addlemma() {
 		verifAssert((p256LessThanP(&ez) == 1) == c05WideLess(z, c05PBytes), "p256LessThanP(x) = 1 exactly if x < p")
 	}
 	verifReach("end")
+}
+
+// ---- native instance finder: a curve point with a tiny ordinate (so that y + p still fits 32 bytes) ------
+// roots of f(x) = x^3 - 3x + (b - y0^2) over F_p via gcd(x^p - x, f); polynomials of degree <= 2 as [3]*big.Int
+
+type c05Poly [3]*big.Int
+
+func c05PolyMul(a, b c05Poly, c *big.Int) c05Poly {
+	p := c05P
+	var t [5]*big.Int
+	for i := range t {
+		t[i] = new(big.Int)
+	}
+	for i := 0; i < 3; i++ {
+		for j := 0; j < 3; j++ {
+			t[i+j].Add(t[i+j], new(big.Int).Mul(a[i], b[j]))
+		}
+	}
+	// x^3 = 3x - c, x^4 = 3x^2 - c x
+	for k := 4; k >= 3; k-- {
+		t[k].Mod(t[k], p)
+		t[k-2].Add(t[k-2], new(big.Int).Mul(t[k], big.NewInt(3)))
+		t[k-3].Sub(t[k-3], new(big.Int).Mul(t[k], c))
+	}
+	var r c05Poly
+	for i := 0; i < 3; i++ {
+		r[i] = t[i].Mod(t[i], p)
+	}
+	return r
+}
+
+// c05SmallYPoint returns x with (x, y0) on the curve when the cubic has exactly one root in F_p.
+func c05SmallYPoint(y0 int64) (*big.Int, bool) {
+	p := c05P
+	c := new(big.Int).Sub(c05B, big.NewInt(y0*y0))
+	c.Mod(c, p)
+	one := func() c05Poly { return c05Poly{big.NewInt(1), big.NewInt(0), big.NewInt(0)} }
+	h := one()
+	base := c05Poly{big.NewInt(0), big.NewInt(1), big.NewInt(0)}
+	for i := p.BitLen() - 1; i >= 0; i-- {
+		h = c05PolyMul(h, h, c)
+		if p.Bit(i) == 1 {
+			h = c05PolyMul(h, base, c)
+		}
+	}
+	// g = h - x (degree <= 2); gcd(f, g)
+	h[1].Sub(h[1], big.NewInt(1)).Mod(h[1], p)
+	// f mod g by hand for deg g = 2, then continue Euclid on degrees <= 2
+	f := []*big.Int{c, new(big.Int).Mod(big.NewInt(-3), p), big.NewInt(0), big.NewInt(1)}
+	g := []*big.Int{h[0], h[1], h[2]}
+	trim := func(q []*big.Int) []*big.Int {
+		for len(q) > 0 && q[len(q)-1].Sign() == 0 {
+			q = q[:len(q)-1]
+		}
+		return q
+	}
+	g = trim(g)
+	for len(g) > 0 {
+		// f = f mod g
+		inv := new(big.Int).ModInverse(g[len(g)-1], p)
+		for len(f) >= len(g) {
+			k := new(big.Int).Mul(f[len(f)-1], inv)
+			k.Mod(k, p)
+			sh := len(f) - len(g)
+			for i := range g {
+				f[sh+i] = new(big.Int).Mod(new(big.Int).Sub(f[sh+i], new(big.Int).Mul(k, g[i])), p)
+			}
+			f = trim(f)
+			if len(f) == 0 {
+				break
+			}
+		}
+		f, g = g, f
+	}
+	if len(f) != 2 {
+		return nil, false // no root, or more than one (not split further)
+	}
+	// root of f0 + f1 x
+	x := new(big.Int).Mul(new(big.Int).Neg(f[0]), new(big.Int).ModInverse(f[1], p))
+	return x.Mod(x, p), true
 }
